@@ -165,6 +165,18 @@ def _closure_task(with_kwargs):
             E.prove(f"C32.GenerativeFunctionClosure.edit.{tag}", E.eq(tuple(got[1]), tuple(want)))
             E.prove(f"C32.GenerativeFunctionClosure.edit.{tag}.new_args_include_stored",
                     E.eq(E.method(got[1][0], "get_args"), E.method(want[0], "get_args")))
+        if with_kwargs:
+            # the keyword arguments are ARGUMENTS of the kwarg-handling version of the function (for a static function they reach
+            # the program): its edit must see them tagged as possibly changed, like the stored positional ones.  Stated with an
+            # arbitrary kwarg-handling version (the default IgnoreKwargs drops the keyword diffs, so it cannot tell)
+            hk = G(E, "kwarg_handling_version")
+            E.I.abstract_methods[("GenerativeFunction", "handle_kwargs")] = lambda I, s: hk
+            old_hk = T.abstract_trace("old_hk", g=hk.t)
+            got2 = E.attempt(lambda: E.method(cl, "edit", k, old_hk, req, xd))
+            want2 = E.method(hk, "edit", k, old_hk, req, (full_diffs, E.call(INC + ":Diff.unknown_change", kw)))
+            E.prove(f"C32.GenerativeFunctionClosure.edit.{tag}.keyword_arguments_are_handed_on_tagged_as_possibly_changed",
+                    got2[0] == "ok" and E.eq(tuple(got2[1]), tuple(want2)))
+            del E.I.abstract_methods[("GenerativeFunction", "handle_kwargs")]
         E.refutable(f"closure.{tag}", E.eq(E.method(tr, "get_score"), 0.0))
     return t
 
